@@ -11,6 +11,7 @@ SNext == /\ Len(gs) < glen
          /\ \E c \in Sym : gs' = Append(gs, c) /\ w' \in (IF c \in {"x", "y"} THEN 1..3 ELSE {1})
          /\ glen' = glen
 SSpec == SInit /\ [][SNext]_<<gs, glen, w>>
-Case(s) == [s |-> s, maxline |-> MaxLine(s), eof |-> Acceptable(s, "eof"), tmo |-> Acceptable(s, "timeout")]
+Case(s) == [s |-> s, maxline |-> MaxLine(s), eof |-> Acceptable(s, "eof"), tmo |-> Acceptable(s, "timeout"),
+            conts |-> Conts(s)]
 Emit == Len(gs) = glen => PrintT("@@L " \o ToJson(Case(gs)))
 =============================================================================
